@@ -50,6 +50,11 @@ CHECKS = {
          "All outcome vectors x limits x interleavings for N <= 3 (quick) / 5 (thorough) on the code-shaped PlusCal model, including liveness; every (outcomes, limit, feasible completion order) for N <= 4/5 is forced on the real function through gated job closures and each return value is judged by TLC against FirstSuccessAbs.",
          "Request context stays live (the property's proviso); a hang is detected by a 3 s watchdog after all jobs finished.",
          "DESIGN.md section 7, C18", "firstsuccess"),
+ "C19": ("model_checking",
+         "TLC exhaustive check of code-shaped Stream.tla (slot loop, filter predicate and its use, index path with per-account window queries and ordered flush) incl. negative configurations; real StreamBlocks / StreamTransactions with and without the real address index; TLC trace judge (Trace_Stream.tla)",
+         "The stream model is evaluated for every (loaded set, range, filter over a 4-account universe incl. a loaded-only account, index on/off) of a 2-epoch model archive; TLC-generated archives (skipped slots, vote / failed / metadata-less transactions, address-table loaded accounts) are built with real `index gsfa` directories and streamed over ranges inside / across epochs / on skipped slots with seeded filters, with and without the index; TLC judges every streamed sequence (order and membership) against StreamAbs.",
+         "Filters always carry vote and failed (absence is C08's); exclude / required accounts never occur as loaded-only accounts; empty marker messages are not transactions; index loaded for all epochs or none; the per-account batch of 100 of the index path is a recorded known finding.",
+         "DESIGN.md section 7, C19", "stream"),
  "C06": ("model_checking",
          "TLC exhaustive check of code-shaped GsfaWriter.tla; TLC-simulated schedules forced on the real writer through hook gates; TLC trace judge (Trace_Gsfa.tla) over recorded read-backs",
          "Exhaustive TLC exploration of every push history x goroutine interleaving of the code-shaped writer model (thresholds shrunk), plus every TLC-generated schedule replayed step by step on the real writer with the same literals shrunk, real-constant runs around the 1000-entry batch size and the periodic flush, and records at both sides of the varint width boundaries; every recorded read-back is judged by TLC against the abstract property.",
@@ -57,6 +62,8 @@ CHECKS = {
          "DESIGN.md section 7, C06", "gsfa"),
 }
 ENGINES = [
+ {"name": "stream", "path": "spec/Stream.tla", "serves_properties": ["C19"],
+  "kind_free_text": "TLA+ Ledger + StreamAbs/Stream/MC_Stream + Trace_Stream; Go harness/main/c19_test.go (recording grpc.ServerStream)"},
  {"name": "gsfapaging", "path": "spec/GsfaPaging.tla", "serves_properties": ["C07", "C03"],
   "kind_free_text": "TLA+ GsfaPagingAbs/GsfaPaging/GsfaSlotWindow + Trace_GsfaPaging; Go harness/pkg/gsfa/c07_test.go, harness/main/c07_test.go"},
  {"name": "epochload", "path": "spec/EpochLoad.tla", "serves_properties": ["C10"],
